@@ -33,6 +33,16 @@ type Exported struct {
 	Tables   map[string]Table    `json:"tables"`
 	Grammars map[string][]string `json:"grammars"`
 	Parts    []PartRow           `json:"parts"`
+	Exact    []string            `json:"exact"` // structures whose decoder is size-exact
+}
+
+func (e *Exported) exactDecoder(s string) bool {
+	for _, x := range e.Exact {
+		if x == s {
+			return true
+		}
+	}
+	return false
 }
 
 var (
